@@ -449,7 +449,9 @@ class C03(core.Check):
         else:
             ct = 'application/x-www-form-urlencoded'
             if c.get('declared'):
-                ct += '; charset=' + c['declared']
+                # parameter names are case-insensitive (RFC 7231 3.1.1.1); the spelling is a function of the case
+                spell = ['charset', 'charset', 'Charset', 'CHARSET', 'charset'][(c.get('seed', 0) + len(body)) % 5]
+                ct += ('; %s=' % spell if spell != 'CHARSET' else ' ;%s=' % spell) + c['declared']
             r = wsgi.call(app, 'POST', target, [('Content-Type', ct), ('Content-Length', str(len(body)))], body)
         calls = list(self.seen)
         kw = calls[0] if calls else None
